@@ -1,11 +1,15 @@
 from harness.props import base
 from harness import preds
-LEVEL = 'other'
-VFILES = ['Engine.v', 'EngineSim.v', 'Properties/C07.v']
-TECHNIQUE = 'Coq simulation proof between the strict and the recovering run of the engine model (accepting half) + parse correspondence in both modes + first-error search'
-EXPLANATION = ('Proved on the Engine model for all tables and token lists: if strict parsing accepts, recovery takes the same steps and returns the identical tree '
-               '(step simulation over add_token, _recovery_tokenize is the identity while no INDENT was dropped). C07_partial: absence of error nodes in that tree, '
-               'the converse and the agreement on the first error token are decided by the parse correspondence in both modes and the first_error_agrees predicate.')
+LEVEL = 'proof'
+VFILES = ['Engine.v', 'EngineSim.v', 'EngineErr.v', 'Properties/C07.v']
+TECHNIQUE = ('Coq simulation proof between the strict and the recovering run of the engine model + invariant proof that error markers are created exactly '
+             'where the strict run raises and are never lost + parse correspondence in both modes + first-error search')
+EXPLANATION = ('Proved on the Engine model for all tables, start rules and token lists, and on the pipeline model for all versions and texts (C07_agree): if strict '
+               'parsing accepts, recovery takes the same steps and returns the identical tree (step simulation over add_token; _recovery_tokenize is the identity while '
+               'no INDENT was dropped) and that tree has no error node / error leaf (strict_no_error); if strict parsing raises its syntax error, every tree the recovering '
+               'parser returns contains an error node or error leaf (syntax_error_marked: the marker is created in the recovery branch taken at that token and pop / '
+               'convert_node / stack removal never lose one; convert_node(suite) drops only blank children - guard PGuard). C07_partial: that the token reported by the '
+               'strict parser is the first error the recovering parser marks is decided by the parse correspondence in both modes and the first_error_agrees predicate.')
 LEVEL_TEXT = EXPLANATION
 
 
